@@ -643,7 +643,8 @@ fn layer(rep: &Reporter, args: &Args, only_paths: bool) -> J {
     let (dev, budget) = if args.quick() { (3, 40) } else { (5, 1500) };
     let stats = explore(&ExploreCfg { max_dev: dev, threads: args.threads, budget: Duration::from_secs(budget) }, |c: &mut Chooser| {
         let case = gen_case(c);
-        if !distinct.insert(fnv(format!("{:?}", case.files).as_bytes())) {
+        // everything that distinguishes two runs: the files and how the CLI is started (a tag such as the working directory)
+        if !distinct.insert(fnv(format!("{:?}{:?}", case.files, case.tags).as_bytes())) {
             return;
         }
         if c.deviations() == 1 {
